@@ -75,6 +75,7 @@ class Explorer:
     def _explore(self, fn, catch):
         work = [[]]
         out = []
+        self.conc = {}          # decision trace -> value picked by model_value there (re-executions must not ask again)
         while work:
             if len(out) >= self.max_paths:
                 raise PathBudgetExceeded(f'more than {self.max_paths} paths')
@@ -138,11 +139,55 @@ class Explorer:
             return
         self.side.append((kind, t))
 
+    def bounds(self, t):
+        key = (tuple(self.trace), 'bounds')
+        hit = self.conc.get(key)
+        if hit is not None and hit[0].eq(t):
+            return hit[1]
+        b = _tight_bounds(self, t)
+        self.conc[key] = (t, b)
+        return b
+
     def model_value(self, t):
+        key = tuple(self.trace)
+        hit = self.conc.get(key)
+        if hit is not None and hit[0].eq(t):
+            return hit[1]
         r, m = check(self.pc, self.query_timeout_ms)
         if r != 'sat':
             raise Unsupported('no model for concretisation')
-        return m.eval(t, model_completion=True).as_long()
+        v = m.eval(t, model_completion=True).as_long()
+        if self.pos >= len(self.prefix):
+            self.conc[key] = (t, v)
+        return v
+
+
+def _tight_bounds(ex, t):
+    """smallest and largest value of the Int term t under the current path condition (feasibility queries only)"""
+    r, m = check(ex.pc, ex.query_timeout_ms)
+    if r != 'sat':
+        raise Unsupported('no model for concretisation')
+    v0 = m.eval(t, model_completion=True).as_long()
+
+    def edge(sign):
+        # largest d >= 0 such that t == v0 + sign * d is feasible
+        step = 1
+        good = 0
+        while ex.feasible(t >= v0 + good + step if sign > 0 else t <= v0 - good - step):
+            good += step
+            step *= 2
+            if good > 1 << 40:
+                raise Unsupported('concretisation of an unbounded value')
+        # feasible beyond `good`-1.., infeasible at >= good + step: bisect
+        lo, hi = good, good + step - 1
+        while lo < hi:
+            mid = (lo + hi + 1) // 2
+            if ex.feasible(t >= v0 + mid if sign > 0 else t <= v0 - mid):
+                lo = mid
+            else:
+                hi = mid - 1
+        return lo
+    return v0 - edge(-1), v0 + edge(+1)
 
 
 def side_conditions_hold(path, timeout_ms=60000):
